@@ -30,6 +30,13 @@ Binding B    : random call sequences on real TransmissionModels (isothermal / N-
                instruments; oracle = FULL native grid + independent overlap-weighted mean); 40% of the traces fit
                parameters of the observation (offset [ppm], scale): the trace specification fixes the data side of every
                call from the vector of that call (DataOk).
+Round 4      : bins that OVERLAP each other inside the clip window (LikeGrid: family "ovl", bin-search rule each / resume;
+               wide traces: observation formats 4 columns / 3 columns / second instrument / constant-width wavelength bins);
+               atmospheres above unity in SOME layers only (Likelihood: ChemLayers / ChemRule, Trace_Likelihood: LayerOk on
+               per-layer totals from separate gas-profile objects; a third of the narrow traces fit the surface / top value of
+               a TwoLayerGas / TwoPointGas); prior boundaries at the far ends of the domain (1e-30 .. 1e+20) through every
+               public route that builds a prior (set_boundary, set_mode, Uniform / LogUniform(bounds | lin_bounds),
+               LogGaussian(lin_mean, lin_std)), prior callback at the corners of the cube, trace gases down to 1e-30.
 """
 import math
 import random
@@ -1050,7 +1057,9 @@ def record_trace(ctx, rng, tid, sampler, tmpdir, ncalls, events, pyverdicts, wid
         zs = []
         if kind == 'num' and oc in ('ok', 'NaNSome'):
             chi_f = -2.0 * (ret - w.C)
-            big = max(abs(v) for v in z) > 150 or chi_f > 1e5
+            # (32-bit integers in TLC: the sum of the squared scaled residuals and the scaled chi2 must both fit, whatever the
+            #  implementation returned -- a wrong value is a verdict of the sharp comparison below, not a crash of TLC)
+            big = max(abs(v) for v in z) > 150 or not abs(chi_f) <= 1e5 or not chi2 <= 1e5
             if not big:
                 chi_obs = int(round(chi_f * 1e4))
                 zs = [int(round(v * 100)) for v in z]
